@@ -14,6 +14,15 @@ CLAIMS = {
         "of the two pipelines on every string is not decided.",
    note="Trusted: rustc front end (HIR, name resolution, type check), the mirfacts driver, the Python rule layer, nar_dev_utils 0.42.3 "
         "dictionary semantics as read from its pinned source."),
+ "C01": dict(
+   level="other", design="DESIGN.md §4 C01",
+   technique="static analysis: inverse keyword maps (HIR), table ambiguity under first-match order, dominator check of the ordered-alternative conflict (MIR)",
+   text="Decides structural necessary conditions of the enum format->parse round trip for every constructor and format at once: "
+        "formatter and parser keyword maps are inverse on all 30 term variants, 4 punctuations, 5 stamp kinds and all truth/budget arities; "
+        "operands/brackets/image index are wired in order; the three enum tables are distinct per role and unshadowed under each first-match chain; "
+        "a bracketed-number alternative whose opening keyword can start a later alternative is strict (MIR dominator rule); numbers go through "
+        "Display/str::parse. Value equality parse(format(v)) = v for all v is not decided.",
+   note="Trusted: rustc front end/MIR construction, mirfacts driver, Python rule layer; f64 Display emits digits and '.' only for finite [0,1] values."),
 }
 
 NOT_YET = "check not built yet (DESIGN.md §8 build order); will be claimed once its rules run"
